@@ -440,8 +440,6 @@ def vm_iteration_worker(args):
                     if steps > 8:
                         problems.append('iteration does not terminate: %r' % (visited,))
                         break
-                    if cur not in universe() and cur not in ever_removed and cur not in initial:
-                        problems.append('iteration delivered %r, which the directory never listed' % (cur,))
                     # an arbitrary change of the directory between two steps (or none)
                     k = ctx.choose(3, 'change')
                     if k == 1:
@@ -455,8 +453,15 @@ def vm_iteration_worker(args):
                         vt.now += 1000
                         ls.refresh()
                         ever_removed |= before - set(universe())
-                    reg.operand = reg.operand
                     vd.dnextm(member_of, cur) if member_of else vd.dnext(cur)
+                    # the step yields the nearest name the directory lists now in that direction
+                    now = universe()
+                    beyond = [n for n in now if (n > cur if forward else n < cur)]
+                    want = (min(beyond) if forward else max(beyond)) if beyond else None
+                    got = reg.result if reg.result is not Operand.NULL else None
+                    if got != want:
+                        problems.append('step from %r yields %r, nearest remaining name is %r (directory lists %r)' % (cur, got, want, now))
+                        break
             except Exception as ex:
                 problems.append('%s: %s during the iteration (visited %r)' % (type(ex).__name__, ex, visited))
             if not problems:
